@@ -15,7 +15,7 @@ EXPLANATION = (
 
 
 def check(ctx, run):
-    run.rules_run = ['R06.1', 'R06.2', 'R06.3', 'R06.4', 'R06.5', 'R06.8', 'R06.9', 'R05.1/R05.2(iterators)']
+    run.rules_run = ['R06.1', 'R06.2', 'R06.3', 'R06.4', 'R06.5', 'R06.8', 'R06.9', 'R05.1/R05.2(iterators)', 'R06.12']
     ba = buffers.BufferAnalysis(ctx)
     from rules.c17 import entries
     for e in entries(ctx):
@@ -34,4 +34,9 @@ def check(ctx, run):
     _bf = lambda p_: p_.startswith(('functions::delete_', 'functions::array_insert', 'functions::object_'))
     boundaries.check(ctx, run, 'R06.10', [p_ for p_ in sorted(boundaries.load_baseline() or {}) if _bf(p_)], 'an editor rejects a position / key')
     accessors.name_variants_alike(ctx, run, 'R06.11', lambda p_: p_.startswith('functions::'))
+    from rules import layout as _layout
+    _layout.r01_2(ctx, run, rule='R06.12/R01.2')
+    from rules import editing as _ed
+    _ed.r06_13(ctx, run, rule='R06.13')
+    _ed.r11_6(ctx, run, rule='R06.14/R11.6')
     return report.finish(run, level='other', explanation=EXPLANATION, assumptions=["A1: valid documents", "A2/A3"])
